@@ -103,6 +103,7 @@ type Interp struct {
 	splitOf map[string][]Term
 	ptrIDs  map[*Value]int
 	guardsOff bool
+	quotedOf map[string]Term
 	lockCount map[*Value]int
 }
 
